@@ -64,9 +64,9 @@ func init() {
 		Tasks: func(tier string, seed int64) []Task { return c02Tasks(tier) },
 		Bounds: func(tier string) map[string]interface{} {
 			return map[string]interface{}{
-				"high_level": "real EncodeHighLevel -> real DecodedBitStreamParser_decode: 9 concrete prefixes that latch ASCII / C40 / Text / X12 / EDIFACT / Base-256 (two residues for C40 and X12) + 0..1 free ISO-8859-1 characters (all 254 values except 0xC2/0xC3) + 4 tails, 3 shape hints; thorough adds 2 free characters after the ASCII and C40 prefixes",
-				"writer":     "whole writer and matrix decoder with 0..1 free characters and 3 shapes",
-				"symbol":     "codeword level: all data codewords free for 15 (thorough 30) sizes; de-interleave for all 30",
+				"high_level":  "real EncodeHighLevel -> real DecodedBitStreamParser_decode: 9 concrete prefixes that latch ASCII / C40 / Text / X12 / EDIFACT / Base-256 (two residues for C40 and X12) + 0..1 free ISO-8859-1 characters (all 254 values except 0xC2/0xC3) + 4 tails, 3 shape hints; thorough adds 2 free characters after the ASCII and C40 prefixes",
+				"writer":      "whole writer and matrix decoder with 0..1 free characters and 3 shapes",
+				"symbol":      "codeword level: all data codewords free for 15 (thorough 30) sizes; de-interleave for all 30",
 				"termination": "every loop of the mode machine is unrolled under a step/visit budget; a run that exceeded it would be reported INCOMPLETE, none did",
 			}
 		},
@@ -76,7 +76,7 @@ func init() {
 			"characters 0xC2 / 0xC3 as free characters (excluded so that the known raw-byte rendering cannot alias a UTF-8 lead byte)",
 			"min/max size hints in the high-level tasks (C13 covers the lookup); macro 05/06 envelopes; Reed-Solomon algebra (stubbed; C04, C08)",
 		},
-		Stubs: []string{"createECCBlock -> rotation stub; correctErrors -> pairing check; DecodedBitStreamParser_decode -> raw bytes (symbol tasks only)", "x/text ISO-8859-1 codec -> model"},
+		Stubs:       []string{"createECCBlock -> rotation stub; correctErrors -> pairing check; DecodedBitStreamParser_decode -> raw bytes (symbol tasks only)", "x/text ISO-8859-1 codec -> model"},
 		Assumptions: commonAssumptions,
 	}
 }
